@@ -1,4 +1,55 @@
+(* C16 -- property theorems (statements only). *)
 From Coq Require Import ZArith QArith List.
-From OMV Require Import Base.Val C15.Model C16.Model.
-Theorem C16_placeholder : True. Proof. exact I. Qed.
-Print Assumptions C16_placeholder.
+From OMV Require Import Base.Val C15.Model C15.Proofs1D C16.Model C16.Proofs.
+Import ListNotations.
+Open Scope Z_scope.
+Open Scope Q_scope.
+
+(* The derivative returned with respect to the query coordinate is the formal derivative of the cell
+   polynomial: slinear, lagrange2, lagrange3 and the natural cubic spline, every strictly increasing grid,
+   every cell, every table (as functions of the query coordinate x, all x). *)
+Theorem C16_d_dx_is_formal_derivative : forall (m : method) (g : list Q) (idx : Z) (vs : list Q),
+  smooth_method m -> incr g -> (kmin m <= zlen g)%Z -> (0 <= idx <= zlen g - 1)%Z ->
+  is_fderiv (fun x => interp1 m g idx x vs) (fun x => d1 m g idx x vs).
+Proof. exact d1_is_formal_derivative. Qed.
+Print Assumptions C16_d_dx_is_formal_derivative.
+
+(* Akima: for a fixed cell (its end slopes b, bp1 and extrapolation state do not depend on x). *)
+Theorem C16_akima_d_dx_is_formal_derivative : forall (extrap : Z) (p0 p1 pf v3 v4 m3 b bp1 : Q),
+  ~ p1 - p0 == 0 ->
+  is_fderiv (akima_poly extrap p0 p1 pf v3 v4 m3 b bp1) (dakima_poly extrap p0 p1 pf v3 v4 m3 b bp1).
+Proof. exact akima_fderiv. Qed.
+Print Assumptions C16_akima_d_dx_is_formal_derivative.
+
+(* Tables of any dimension: the first gradient entry is the formal derivative with respect to the first
+   query coordinate (the remaining coordinates and all cells fixed). *)
+Theorem C16_grad_head_partial : forall (m : method) (g : list Q) (gs : list (list Q)) (i : Z) (is' : list Z)
+                                  (xs : list Q) (T : tensor),
+  smooth_method m -> incr g -> (kmin m <= zlen g)%Z -> (0 <= i <= zlen g - 1)%Z ->
+  is_fderiv (fun x => evalND m (g :: gs) (i :: is') (x :: xs) T)
+            (fun x => hd 0 (gradND m (g :: gs) (i :: is') (x :: xs) T)).
+Proof. exact grad_head_is_formal_derivative. Qed.
+Print Assumptions C16_grad_head_partial.
+
+(* The interpolant is linear in the table values ... *)
+Theorem C16_linear_in_values : forall (m : method) (g : list Q) (idx : Z) (x : Q) (us vs ws : list Q) (a : Q),
+  linear_method m -> (kmin m <= zlen g)%Z -> (0 <= idx)%Z ->
+  (forall k, (0 <= k)%Z -> vq us k == a * vq vs k + vq ws k) ->
+  interp1 m g idx x us == a * interp1 m g idx x vs + interp1 m g idx x ws.
+Proof. exact linear_in_values. Qed.
+Print Assumptions C16_linear_in_values.
+
+(* ... and the values on the unit tables (what training_gradients returns) are its coefficients. *)
+Theorem C16_d_dvalues_are_coefficients : forall (m : method) (g : list Q) (idx : Z) (x : Q) (vs : list Q),
+  linear_method m -> (kmin m <= zlen g)%Z -> (0 <= idx)%Z -> length vs = length g ->
+  interp1 m g idx x vs ==
+  dotq (map (fun k => interp1 m g idx x (unitn (length g) k)) (seq 0 (length g))) vs.
+Proof. exact d_dvalues_are_coefficients. Qed.
+Print Assumptions C16_d_dvalues_are_coefficients.
+
+(* Every linear functional of the table is the dot product with its values on the unit vectors (the
+   argument used by InterpND.training_gradients for every method). *)
+Theorem C16_linear_decomposition : forall (L : list Q -> Q) (vs : list Q),
+  linearL L -> L vs == dotq (map (fun k => L (unitn (length vs) k)) (seq 0 (length vs))) vs.
+Proof. exact linear_decomp. Qed.
+Print Assumptions C16_linear_decomposition.
